@@ -180,7 +180,7 @@ impl Scenario for C06 {
             components_stubbed: &["TCP (SimNet)", "EPMD (stub)", "remote node (conforming sender model with an independent encoder)"],
             assumptions: &["junk frames never touch atom-cache slots the sender model uses (reserved segment 7) and use sequence ids disjoint from valid fragments", "fragmented messages use header entries in reserved segment 6 so that the known fragment defect cannot cascade into later messages"],
             fault_prefixes: &["fault.", "net."],
-            expected_probes: &["probe.c06.ok_passthrough", "probe.c06.ok_header", "probe.c06.tick_skipped", "probe.c06.junk_rejected", "probe.c06.message_after_junk_intact", "probe.c06.fragmented_sent", "probe.c06.read_half_api", "probe.c06.raw_api", "probe.c06.junk_with_intact_header", "probe.c06.read_half_short_timeout", "probe.c06.idle_timeout_retried", "probe.c06.receive_cancelled_while_idle", "probe.c06.switched_from_connection_to_read_half"],
+            expected_probes: &["probe.c06.ok_passthrough", "probe.c06.ok_header", "probe.c06.tick_skipped", "probe.c06.junk_rejected", "probe.c06.message_after_junk_intact", "probe.c06.fragmented_sent", "probe.c06.read_half_api", "probe.c06.raw_api", "probe.c06.junk_with_intact_header", "probe.c06.read_half_short_timeout", "probe.c06.idle_timeout_retried", "probe.c06.receive_cancelled_while_idle", "probe.c06.switched_from_connection_to_read_half", "probe.c06.header_with_254_or_255_references"],
         }
     }
 }
@@ -288,7 +288,19 @@ pub fn build_script(w: &Arc<World>, header_mode: bool, interleave: bool, items: 
                 let (control, has_payload) = sender::gen_control(&mut r, it.ctl_kind as usize, false);
                 kinds_seen.insert(it.ctl_kind as usize % sender::n_kinds());
                 w.stat(&format!("c06.control_kind.{:02}", it.ctl_kind as usize % sender::n_kinds()));
-                let payload = if has_payload { Some(Val::tuple(vec![Val::int(k as i128), wire::gen_val(&mut r, it.size)])) } else { None };
+                let mut payload = if has_payload { Some(Val::tuple(vec![Val::int(k as i128), wire::gen_val(&mut r, it.size)])) } else { None };
+                // now and then a header that carries 253, 254 or 255 references (the count is one byte)
+                let full_header = header_mode && has_payload && it.n_frags == 0 && it.seed % 16 == 5;
+                if full_header {
+                    let mut base = Vec::new();
+                    control.atoms(&mut base);
+                    payload.as_ref().unwrap().atoms(&mut base);
+                    base.sort();
+                    base.dedup();
+                    let want = [253usize, 254, 255, 255][(it.seed >> 4) as usize % 4];
+                    let extra: Vec<Val> = (0..want.saturating_sub(base.len())).map(|j| Val::Atom(format!("c6_{}_{}", k, j))).collect();
+                    payload = Some(Val::tuple(vec![Val::int(k as i128), wire::gen_val(&mut r, it.size), if extra.is_empty() { Val::Nil } else { Val::List(extra, Box::new(Val::Nil)) }]));
+                }
                 if !header_mode {
                     frames.push((wire::frame4(&wire::pass_through(&control, payload.as_ref())), it.gap_ms));
                     expect.push(Expect::Ok(control, payload, "pass-through"));
@@ -319,7 +331,17 @@ pub fn build_script(w: &Arc<World>, header_mode: bool, interleave: bool, items: 
                         }
                     } else {
                         let mut st = Vec::new();
+                        let keep = cache.cache_everything;
+                        if full_header {
+                            atoms.sort();
+                            atoms.dedup();
+                            cache.cache_everything = true;
+                        }
                         let refs = cache.choose_refs(&mut r, &atoms, &mut st);
+                        cache.cache_everything = keep;
+                        if refs.len() >= 254 {
+                            w.stat("probe.c06.header_with_254_or_255_references");
+                        }
                         for s in st {
                             w.stat(s);
                         }
